@@ -6,7 +6,9 @@ WT=/tmp/seed/$ID
 cd $WT || exit 9
 git checkout -q -- . ; git apply out/mut$N.diff || { echo "APPLY FAILED"; exit 9; }
 /venv/bin/python out/demo$N.py > /tmp/seed/$NAME.demo_mut.log 2>&1; D1=$?
-/venv/bin/python -m pytest -q -p no:cacheprovider --timeout=900 -q > /tmp/seed/$NAME.tests.log 2>&1; T=$?
+if [ -z "${SKIP_TESTS:-}" ]; then
+/venv/bin/python -m pytest -q -p no:cacheprovider --timeout=900 > /tmp/seed/$NAME.tests.log 2>&1; T=$?
+else T=skipped; fi
 TS=$(grep -E "passed|failed" /tmp/seed/$NAME.tests.log | tail -1)
 git checkout -q -- . ; rm -f tests/data/test_multiple.7z
 /venv/bin/python out/demo$N.py > /tmp/seed/$NAME.demo_clean.log 2>&1; D0=$?
